@@ -20,13 +20,12 @@ ocaml: coq
 # against the translation.  (Every check does this itself, in a scratch directory, for the ties of its property.)
 REPO ?= /repo
 tie: coq
-	mkdir -p coq/generated
-	python3 translate/py2v.py $(REPO) lookup_enc > coq/generated/LookupEncGen.v
-	python3 translate/py2v.py $(REPO) lookup_dec > coq/generated/LookupDecGen.v
-	python3 translate/py2v.py $(REPO) hint > coq/generated/HintGen.v
-	python3 translate/py2v.py $(REPO) options > coq/generated/OptionsGen.v
-	cd coq && for u in LookupEnc LookupDec Hint Options; do coqc -Q tie PJ.Tie -Q generated PJ.Gen generated/$${u}Gen.v && \
-	  coqc -Q model PJ.Model -Q tie PJ.Tie -Q generated PJ.Gen tie/$${u}Tie.v || exit 1; done
+	rm -rf coq/generated && mkdir -p coq/generated/gen coq/generated/tie
+	for u in lookup_enc:LookupEnc lookup_dec:LookupDec hint:Hint options:Options encode:Encode; do \
+	  python3 translate/py2v.py $(REPO) $${u%%:*} > coq/generated/gen/$${u##*:}Gen.v || exit 1; done
+	cd coq && for u in LookupEnc LookupDec Hint Options Encode; do \
+	  coqc -Q tie PJ.Tie -Q generated/tie PJ.Tie -Q generated/gen PJ.Gen generated/gen/$${u}Gen.v && \
+	  coqc -Q model PJ.Model -Q tie PJ.Tie -Q generated/tie PJ.Tie -Q generated/gen PJ.Gen -o generated/tie/$${u}Tie.vo tie/$${u}Tie.v || exit 1; done
 
 clean:
 	-cd coq && [ -f Makefile ] && $(MAKE) clean --no-print-directory
